@@ -39,6 +39,10 @@ pub struct E2Case {
     pub epochs: Vec<Epoch>,
     /// cut fractions at which a real kill is cross-validated (applied in every epoch)
     pub validate: Vec<u16>,
+    /// only states in which op `check_from_op` (of the first epoch) or a later one is in flight or
+    /// acknowledged are checked (bulk histories: thousands of preparatory puts are not cut)
+    #[serde(default)]
+    pub check_from_op: Option<usize>,
 }
 
 #[derive(Clone, Copy, Default, Debug)]
@@ -75,13 +79,20 @@ pub fn apply_step<K: HKey>(m: &Model<K>, pool: &[K], st: &Step) -> Model<K> {
                 m.remove(&k);
             }
         }
+        Step::Bulk { n } => {
+            for i in 0..*n as u64 {
+                if let Some(k) = K::from_key_bytes(&(100_000 + i).to_le_bytes()) {
+                    m.insert(k, pool_content(1));
+                }
+            }
+        }
         _ => {}
     }
     m
 }
 
 struct CutState {
-    fs: Fs,
+    fs: Option<Fs>,
     /// (number of acknowledged ops, in-flight op) pairs that hold somewhere inside this state's interval
     pairs: Vec<(usize, Option<usize>)>,
     phase: &'static str,
@@ -439,7 +450,13 @@ pub fn run_e2<K: HKey>(case: &E2Case, lenses: E2Lenses) -> R<CaseMeta> {
         let mut acked = 0usize;
         let mut inflight: Option<usize> = None;
         let mut phase: &'static str = if ei == 0 { "init" } else { "recovery" };
-        let mut cur = CutState { fs: fs.clone(), pairs: vec![(0, None)], phase, next_label: String::new(), next_mseq: 0, durable_only_change: false };
+        let relevant = |pairs: &Vec<(usize, Option<usize>)>| -> bool {
+            match case.check_from_op {
+                None => true,
+                Some(c) => pairs.iter().any(|(a, inf)| *a >= c || inf.is_some_and(|i| i >= c)),
+            }
+        };
+        let mut cur = CutState { fs: None, pairs: vec![(0, None)], phase, next_label: String::new(), next_mseq: 0, durable_only_change: false };
         for e in &run.trace {
             match &e.ev {
                 Ev::Mark(t) => {
@@ -475,6 +492,10 @@ pub fn run_e2<K: HKey>(case: &E2Case, lenses: E2Lenses) -> R<CaseMeta> {
                 }
                 _ => {}
             }
+            // the filesystem does not change inside an interval: snapshot it lazily, and only for states that will be checked
+            if cur.fs.is_none() && relevant(&cur.pairs) {
+                cur.fs = Some(fs.clone());
+            }
             let before_unsynced = if lenses.powerloss { fs.unsynced().len() } else { 0 };
             let is_mut = e.mseq > 0;
             if is_mut && cur.next_mseq == 0 {
@@ -490,12 +511,22 @@ pub fn run_e2<K: HKey>(case: &E2Case, lenses: E2Lenses) -> R<CaseMeta> {
                 if cur.next_mseq == 0 {
                     cur.next_label = "sync".into();
                 }
-                states.push(cur);
-                cur = CutState { fs: fs.clone(), pairs: vec![(acked, inflight)], phase, next_label: String::new(), next_mseq: 0, durable_only_change: !changed };
+                if cur.fs.is_some() {
+                    states.push(cur);
+                }
+                cur = CutState { fs: None, pairs: vec![(acked, inflight)], phase, next_label: String::new(), next_mseq: 0, durable_only_change: !changed };
             }
         }
         cur.next_label = "end".into();
-        states.push(cur);
+        if cur.fs.is_none() && relevant(&cur.pairs) {
+            cur.fs = Some(fs.clone());
+        }
+        if cur.fs.is_some() {
+            states.push(cur);
+        }
+        if states.is_empty() {
+            harness_exit("no state to check in an E2 epoch");
+        }
         // trace validation: reconstructed final image == real directory
         if let Some(d) = fs.diff_real(&root) {
             harness_exit(&format!("reconstructed final image differs from the real directory: {d}"));
@@ -515,7 +546,7 @@ pub fn run_e2<K: HKey>(case: &E2Case, lenses: E2Lenses) -> R<CaseMeta> {
             // all (acked, inflight) pairs of this interval
             let mut lost_sets: Vec<Vec<usize>> = vec![vec![]];
             if lenses.powerloss && !asyn {
-                let uns = st.fs.unsynced();
+                let uns = st.fs.as_ref().unwrap().unsynced();
                 let k = uns.len().min(6);
                 for mask in 1u32..(1 << k) {
                     lost_sets.push((0..k).filter(|b| mask & (1 << b) != 0).map(|b| uns[b].1).collect());
@@ -533,7 +564,7 @@ pub fn run_e2<K: HKey>(case: &E2Case, lenses: E2Lenses) -> R<CaseMeta> {
                 if lenses.powerloss && li == 0 && !lenses.recover {
                     // C09 judges only images that actually lose something; the kill image is C03's.
                     if crash_idx == Some(si) && choice_li == 0 {
-                        st.fs.materialise(&img, lost);
+                        st.fs.as_ref().unwrap().materialise(&img, lost);
                         if let Ok(rec) = recover::<K>(&img, n) {
                             let m = st.pairs.iter().flat_map(|(a, inf)| {
                                 let mut v = vec![&models[(*a).min(models.len() - 1)]];
@@ -545,7 +576,7 @@ pub fn run_e2<K: HKey>(case: &E2Case, lenses: E2Lenses) -> R<CaseMeta> {
                     }
                     continue;
                 }
-                st.fs.materialise(&img, lost);
+                st.fs.as_ref().unwrap().materialise(&img, lost);
                 meta.evals += 1;
                 let allowed_for = |a: usize, inf: Option<usize>| -> Vec<&Model<K>> {
                     let mut v = vec![&models[a.min(models.len() - 1)]];
@@ -556,7 +587,7 @@ pub fn run_e2<K: HKey>(case: &E2Case, lenses: E2Lenses) -> R<CaseMeta> {
                     }
                     v
                 };
-                let lctx = if lost.is_empty() { ctx.clone() } else { format!("{ctx} power-loss of {} file(s): {:?}", lost.len(), st.fs.files.iter().filter(|(_, i)| lost.contains(i)).map(|(n, _)| classify_path(n)).collect::<Vec<_>>()) };
+                let lctx = if lost.is_empty() { ctx.clone() } else { format!("{ctx} power-loss of {} file(s): {:?}", lost.len(), st.fs.as_ref().unwrap().files.iter().filter(|(_, i)| lost.contains(i)).map(|(n, _)| classify_path(n)).collect::<Vec<_>>()) };
                 if lenses.cashash {
                     check_cashash_image(&img, &lctx)?;
                 }
@@ -611,7 +642,7 @@ pub fn run_e2<K: HKey>(case: &E2Case, lenses: E2Lenses) -> R<CaseMeta> {
                 // non-trivial: cut strictly inside an op / inside recovery or init
                 let inside_op = st.pairs.iter().any(|(_, inf)| inf.is_some()) && st.phase == "op";
                 let nontrivial = if lenses.powerloss {
-                    !lost.is_empty() && st.fs.files.iter().any(|(nm, i)| lost.contains(i) && matches!(classify_path(nm), "cas" | "wal" | "index"))
+                    !lost.is_empty() && st.fs.as_ref().unwrap().files.iter().any(|(nm, i)| lost.contains(i) && matches!(classify_path(nm), "cas" | "wal" | "index"))
                 } else {
                     inside_op || st.phase == "recovery" || st.phase == "init" || st.phase == "cleanup"
                 };
@@ -667,7 +698,7 @@ pub fn run_e2<K: HKey>(case: &E2Case, lenses: E2Lenses) -> R<CaseMeta> {
             }
             meta.count("traces_validated_against_impl", 1);
             // informational: does the killed run agree with the cut image of the original trace?
-            let mut a = st.fs.clone();
+            let mut a = st.fs.as_ref().unwrap().clone();
             a.root = val.to_string_lossy().to_string();
             if a.diff_real(&val).is_none() {
                 meta.count("realkill_matches_cut_image", 1);
@@ -685,7 +716,7 @@ pub fn run_e2<K: HKey>(case: &E2Case, lenses: E2Lenses) -> R<CaseMeta> {
                 }
             }
             (End::Crash(_), Some((si, lost, m))) => {
-                states[si].fs.materialise(&root, &lost);
+                states[si].fs.as_ref().unwrap().materialise(&root, &lost);
                 base = m;
                 seen_versions = seen_at_choice;
                 meta.class("chain_continued_from_crash_image");
